@@ -345,9 +345,31 @@ def ecdsa_rules(ctx):
             if x.kind == "return" and isinstance(x.value, App) and x.value.op == "bound":
                 table[x.value.args[0].obj.name] = [repr(c) for c in x.conds]
         want = {"_create_cose_es_signature", "_create_cose_ed_prehashed_signature", "_create_cose_ed_signature"}
-        es_ok = any("EllipticCurvePrivateKey" in c and not c.startswith("not(") for c in table.get("_create_cose_es_signature", []))
-        ph_ok = any("'hash-eddsa'" in c and not c.startswith("not(") for c in table.get("_create_cose_ed_prehashed_signature", []))
-        ed_ok = any("'hash-eddsa'" in c and c.startswith("not(") for c in table.get("_create_cose_ed_signature", []))
-        R.check("C04-D3b EdDSA and dispatch", set(table) == want and es_ok and ph_ok and ed_ok,
+        # complete decision table: the guards touch the key only through isinstance tests and the algorithm only through comparisons
+        isi = {s_ for x in go for c in x.conds for s_ in subterms(c) if isinstance(s_, App) and s_.op == "isinstance"}
+
+        def chosen(kind, alg):
+            env = {P("algorithm"): alg}
+            for s_ in isi:
+                env[s_] = kind in repr(s_.args[1])
+            for x in go:
+                try:
+                    if all(bool(teval(c, env)) for c in x.conds):
+                        if x.kind == "return" and isinstance(x.value, App) and x.value.op == "bound":
+                            return x.value.args[0].obj.name
+                        return x.kind
+                except Unknown:
+                    return "unknown"
+            return "none"
+        got_t = {(k, a): chosen(k, a) for k in ("EllipticCurvePrivateKey", "Ed25519PrivateKey", "Ed448PrivateKey") for a in ("es-256", "eddsa", "hash-eddsa")}
+        want_t = {}
+        for a in ("es-256", "eddsa", "hash-eddsa"):
+            want_t[("EllipticCurvePrivateKey", a)] = "_create_cose_es_signature"
+            for k in ("Ed25519PrivateKey", "Ed448PrivateKey"):
+                want_t[(k, a)] = "_create_cose_ed_prehashed_signature" if a == "hash-eddsa" else "_create_cose_ed_signature"
+        if "unknown" in got_t.values():
+            raise AnalysisError(f"{ctx.fq(gm)}: dispatch guards not evaluable")
+        diff = {k: (got_t[k], want_t[k]) for k in want_t if got_t[k] != want_t[k]}
+        R.check("C04-D3b EdDSA and dispatch", set(table) == want and not diff,
                 "dispatch: EC key -> ECDSA; Ed key + hash-eddsa -> prehashed; Ed key otherwise -> pure", mod=gm.module, node=gm.node,
-                function=ctx.fq(gm), expected="three-way dispatch on key type and algorithm", found=f"{table}"[:300])
+                function=ctx.fq(gm), expected="three-way dispatch on key type and algorithm", found=f"{diff or table}"[:300])
